@@ -15,20 +15,24 @@ CONSTANTS
   Twins <- %(twins)s
   MaxBudget = %(budget)d
   AbortChecked = %(abort)s
+  RootTestFirst = %(rootfirst)s
+  InteriorEval = %(inteval)d
   Fallback = %(fallback)s
   defaultInitValue = defaultInitValue
-INVARIANTS ValueExact NodeContract WritesClean EntriesTrue OneBest NoPanic InfoOrdered AllDepths PartialSound
+INVARIANTS ValueExact NodeContract WritesClean EntriesTrue OneBest NoPanic InfoOrdered AllDepths PartialSound AnswerIsAValue
 PROPERTY Terminates
 CHECK_DEADLOCK FALSE
 '''
 
 
 def run(prop, tier, cov):
-    base = dict(B=2, D=2, vals='Vals3', tt='FALSE', twins='NoTwins', budget=4, abort='TRUE', fallback='TRUE')
+    base = dict(B=2, D=2, vals='Vals3', tt='FALSE', twins='NoTwins', budget=4, abort='TRUE', fallback='TRUE', rootfirst='TRUE', inteval=0)
     runs = [('all trees B=2 D=2 evals {-1,0,1}, cache probes off, budgets 0..4 and none', dict(base), True, 12),
             ('same family with a transposing pair of nodes and cache probes on', dict(base, tt='TRUE', twins='OneTwin'), True, 2),
             ('legacy: no re-test after a child returns', dict(base, abort='FALSE', budget=2), False, 2),
-            ('legacy: no fallback move', dict(base, fallback='FALSE', budget=1), False, 2)]
+            ('legacy: no fallback move', dict(base, fallback='FALSE', budget=1), False, 2),
+            ('variant: the root compares the child score with alpha before testing for the interruption', dict(base, rootfirst='FALSE', inteval=1), False, 4),
+            ('all trees B=2 D=2 evals {-1,0,1}, shallower iterations see evaluation 1 (the mover stands worse), probes off, budgets 0..4 and none', dict(base, inteval=1), True, 8)]
     big = tier == 'thorough' and prop in ('C11', 'C13')      # the 23 M-state configuration once per property it serves
     if big:
         runs.insert(1, ('all trees B=2 D=3 evals {0,1}, cache probes off, budget 0 and none',
@@ -37,7 +41,7 @@ def run(prop, tier, cov):
 
     def one(r):
         name, c, expect_ok, workers = r
-        res = model_check('MCSearch.tla', CFG % c, 'search-mc-%s-%d-%d' % (prop, os.getpid(), abs(hash(name)) % 10000),
+        res = model_check('MCSearch.tla', CFG % c, 'search-mc-%s-%d-%d' % (prop, os.getpid(), runs.index(r)),
                           workers=workers, timeout=6000)
         return r, res
     # the big runs one after the other, the small ones together
@@ -55,7 +59,7 @@ def run(prop, tier, cov):
             cov['states'] = cov.get('states', 0) + res['distinct']
             cov['transitions'] = cov.get('transitions', 0) + res['generated']
             cov['mc']['Search: ' + name] = {'distinct_states': res['distinct'], 'generated': res['generated'],
-                                            'properties': 'ValueExact NodeContract WritesClean EntriesTrue OneBest NoPanic InfoOrdered AllDepths PartialSound Terminates'}
+                                            'properties': 'ValueExact NodeContract WritesClean EntriesTrue OneBest NoPanic InfoOrdered AllDepths PartialSound AnswerIsAValue Terminates'}
         else:
             m = re.search(r'Invariant (\w+) is violated', res['out'])
             cov['mc']['Search: ' + name] = 'counterexample found: %s' % (m.group(1) if m else 'violation')
